@@ -300,6 +300,9 @@ class Node:
                              ",".join(map(repr, self.args)))
 
 
+ENUMS = {"ProtocolStrategy::Udp": 0, "ProtocolStrategy::Tcp": 1, "ProtocolStrategy::NoTcp": 2,
+         "ErrorKind::TimedOut": 1, "ErrorKind::WouldBlock": 2}
+
 BINPREC = {
     "||": 1, "&&": 2,
     "==": 3, "!=": 3, "<": 3, ">": 3, "<=": 3, ">=": 3,
@@ -541,6 +544,8 @@ def emit(n, cx):
         last = nm.split("::")[-1]
         if nm in ("u16::MAX",):
             return "65535", ("N", 16)
+        if nm in ENUMS:
+            return str(ENUMS[nm]), ("N", None)
         if nm in ("u8::MAX",):
             return "255", ("N", 8)
         if nm in ("u32::MAX",):
@@ -820,7 +825,52 @@ def translate_fnparams(pt, toks):
     return toks_text(toks[a:b])[:200], "[" + "; ".join(params) + "]"
 
 
+def translate_match_bool(pt, toks):
+    ranges = narrow(toks, pt.get("scope", []))
+    hits = []
+    for (a, b) in ranges:
+        for i in range(a, b):
+            if toks[i][1] == "match":
+                j = i + 1
+                while toks[j][1] != "{":
+                    j += 1
+                e = match_brace(toks, j)
+                hits.append((i, j, e))
+    if len(hits) != 1:
+        raise LookupError("%d match expressions" % len(hits))
+    i, j, e = hits[0]
+    arms = []
+    k = j + 1
+    cur = []
+    while k < e:
+        v = toks[k][1]
+        if v == "=>":
+            val = toks[k + 1][1]
+            if val not in ("true", "false"):
+                raise SyntaxError("non-boolean arm " + val)
+            pats = "".join(cur).split("|")
+            for p_ in pats:
+                if p_ == "_":
+                    arms.append(("_", val))
+                elif p_ in ENUMS:
+                    arms.append((str(ENUMS[p_]), val))
+                else:
+                    raise SyntaxError("unknown pattern " + p_)
+            cur = []
+            k += 2
+            if k < e and toks[k][1] == ",":
+                k += 1
+            continue
+        cur.append(v)
+        k += 1
+    body = "match s with " + " ".join("| %s => %s" % a for a in arms) + (" | _ => false" if not any(a[0] == "_" for a in arms) else "") + " end"
+    return toks_text(toks[i:e + 1]), body
+
+
 def translate_point(pt, toks, cx):
+    if pt["kind"] == "match_bool":
+        src, body = translate_match_bool(pt, toks)
+        return src, body, ("bool", None), [], [("scrutinee", "s", "usize")]
     if pt["kind"] == "struct":
         src, body = translate_struct(pt, toks)
         return src, body, ("rtys", None), [], []
